@@ -188,6 +188,14 @@ def r2_cache_key(ctx):
         if isinstance(n, ast.Subscript) and norm(n.value).endswith(
                 "._rating"):
             idx = literal(n.slice)
+            par = getattr(n, "_parent", None)
+            if isinstance(par, ast.Compare):
+                # a freshness test: must look at the hash field
+                ctx.check(idx == layout.index(hv), n,
+                          f"qmap compares cache field {idx} (hash)",
+                          "the map's freshness test does not compare the "
+                          "hash field of the rating cache")
+                continue
             ctx.check(idx in (-1, vpos), n, f"qmap reads rating field {idx}",
                       "the map reads the rating from the wrong cache field")
     # totality of the comparison for array-valued training sets
